@@ -178,7 +178,8 @@ mutual
       (r.1, { r.2 with listTight := st.listTight, pfx := r.2.snd })
     | .item bs =>
       let sep : Str := if st.listTight then [] else if st.suppress then [] else strip st.snd ++ ['\n']
-      let st1 := if !st.listTight && st.suppress then { st with suppress := false } else st
+      -- `if not tight: if suppress: suppress = False` — i.e. the flag survives only in a tight list
+      let st1 := { st with suppress := st.suppress && st.listTight }
       let r := renderBlocks cfg st1 bs
       (sep ++ r.1, r.2)
     | .quote bs =>
